@@ -39,7 +39,10 @@ func PlanSteps(s Src) *StepsPlan {
 	p.Plugin = GenPlugin(s, false)
 	for i := range p.Plugin.Steps {
 		st := &p.Plugin.Steps[i]
-		st.HasSignals = true
+		// most steps handle signals; the same signal ID may have another data schema on another step, and a
+		// step may have no signal handlers at all
+		st.HasSignals = s.Choose("st.hassig", 5) != 0
+		st.SigVariant = s.Choose("st.sigvariant", 3)
 		st.WithInit = s.Choose("st.init", 4) != 0
 		if !st.WithInit && s.Choose("st.anydata", 2) == 1 {
 			st.AnyData = true
@@ -377,7 +380,8 @@ func (stepsEngine) Run(t *testing.T, batch string, tape *rt.Tape, runIdx uint64,
 		}
 		withInit := map[string]bool{}
 		for _, st := range plan.Plugin.Steps {
-			withInit[st.ID] = st.WithInit
+			// step data exists only for steps built with signal handlers and an initializer
+			withInit[st.ID] = st.WithInit && st.HasSignals && !st.AnyData
 		}
 		for _, inv := range recorder.Invocations {
 			rk, ok := opRun[invKey(inv)]
